@@ -215,6 +215,11 @@ fn minimise_inner(plan: &Plan, trace: &[Action], target: &Violation, refs: &mut 
             c.store = StoreMode::PerTask;
             attempt!(c, script.clone());
         }
+        if plan.handler_shared {
+            let mut c = plan.clone();
+            c.handler_shared = false;
+            attempt!(c, script.clone());
+        }
         if plan.opts_per_task {
             let mut c = plan.clone();
             c.opts_per_task = false;
